@@ -37,8 +37,19 @@ async def _run(n0, cycles):
     kind, payload = PI.captured()["sensor"]
     outs = []
     identity_ok = True
+    rec = PI.Recorder()
+    rec.install()
     for c in cycles:
         reader, writer = transports[-1]
+        busy = None
+        if c.get("busy") and "ecomax" not in proto.data:
+            # a user subscribed to the device entry and is slow: the consumer that creates the entry is still inside
+            # get_device_entry when the connection drops
+            busy = loop.create_future()
+
+            async def slow(dev, busy=busy):
+                await busy
+            proto.subscribe("ecomax", slow)
         # traffic: frames from the controller (and from an ecoSTER panel) create / reach the devices
         for sender in c["traffic"]:
             reader.feed_data(G.enc(kind, 0x56, sender, 48, 5, payload) if sender == 0x45 else G.enc(0x40, 0x56, sender, 48, 5, b""))
@@ -73,9 +84,25 @@ async def _run(n0, cycles):
         # "timeout": nothing arrives any more
         for _ in range(400):
             await asyncio.sleep(1)
+            if busy is not None and not busy.done() and not proto.connected.is_set():
+                busy.set_result(None)           # the slow subscriber returns while the connection is down
             if len(transports) > nt and proto.connected.is_set():
                 break
+        if busy is not None and not busy.done():
+            busy.set_result(None)
         await PI.settle(30)
+        # after re-establishment a frame must still reach its device
+        probe_ok = True
+        if "ecomax" in proto.data:
+            n_before = len(rec.calls)
+            transports[-1][0].feed_data(G.enc(kind, 0x56, 0x45, 48, 5, payload))
+            await PI.settle(20)
+            probe_ok = len(rec.calls) == n_before + 1 and rec.objects[rec.calls[-1][0]] is proto.data["ecomax"]
+            for name in list(proto.data):
+                dev = proto.data[name]
+                if not any(d is dev for d in watched):
+                    watched.append(dev)
+                    CI.watch_device(dev, len(watched) - 1, log)
         seg = log[mark:]
         opens = [e for e in seg if e[0] == "open"]
         gaps = []
@@ -94,9 +121,10 @@ async def _run(n0, cycles):
                              count_sm() - sm_before,
                              [e[1] for e in seg if e[0] == "connected" and e[2] is True],
                              tc["producers"], tc["consumers"]],
-                     "other_tasks": tc["protocol_other"] + tc["connection"]})
+                     "other_tasks": tc["protocol_other"] + tc["connection"], "probe_ok": probe_ok})
     await asyncio.wait_for(conn.close(), timeout=300)
-    return {"cycles": outs, "identity_ok": identity_ok}
+    rec.uninstall()
+    return {"cycles": outs, "identity_ok": identity_ok and all(o["probe_ok"] for o in outs)}
 
 
 class C11(Prop):
@@ -117,7 +145,8 @@ class C11(Prop):
             cycles = []
             for i in range(rng.randrange(1, 5)):
                 traffic = rng.choice([[], [0x45], [0x45, 0x45], [0x51], [0x45, 0x51]]) if i == 0 or rng.random() < 0.4 else rng.choice([[], [0x45]])
-                cycles.append({"traffic": traffic, "fault": rng.choice(FAULTS), "after": rng.randrange(0, 4), "fails": rng.randrange(0, 4)})
+                cycles.append({"traffic": traffic, "fault": rng.choice(FAULTS), "after": rng.randrange(0, 4), "fails": rng.randrange(0, 4),
+                               "busy": i == 0 and rng.random() < 0.4})
             cases.append({"kind": "random", "n0": rng.randrange(0, 3), "cycles": cycles})
         return cases
 
@@ -131,6 +160,14 @@ class C11(Prop):
         # devices known at each loss: observed once from the traffic (ecoMAX and/or ecoSTER frames seen so far)
         seen, out = set(), []
         for cy in c["cycles"]:
+            if cy.get("busy") and 0x45 not in seen and 0x45 in cy["traffic"]:
+                # the consumer creating the ecoMAX entry is held by a slow subscriber (it also holds the entry lock):
+                # nothing that arrives from its frame on is known yet when the connection drops
+                known = len(seen | set(cy["traffic"][:cy["traffic"].index(0x45)]))
+                out.append([known, cy["fails"]])
+                for s in cy["traffic"]:
+                    seen.add(s)
+                continue
             for s in cy["traffic"]:
                 seen.add(s)
             out.append([len(seen), cy["fails"]])
